@@ -9,6 +9,7 @@ import (
 	"io"
 	"log"
 	"os"
+	"runtime"
 	"testing/synctest"
 	"time"
 )
@@ -162,4 +163,12 @@ func vTier() int { return vTierVal }
 func vIsSealed(buf, key, ad []byte) bool {
 	_, err := decryptPayload([][]byte{key}, append([]byte(nil), buf...), ad)
 	return err == nil
+}
+
+// vAllocated: bytes requested by size-dependent allocations so far (engine: sum over make() calls with a
+// non-constant size; natively: the runtime's cumulative allocation counter).
+func vAllocated() uint64 {
+	var ms runtime.MemStats
+	runtime.ReadMemStats(&ms)
+	return ms.TotalAlloc
 }
